@@ -157,6 +157,9 @@ class FakeSocket:
         if c.state == "refused":
             raise ConnectionRefusedError(errno.ECONNREFUSED, "Connection refused")
         if not c.inbox:
+            if c.reset and not c.reset_reported:
+                c.reset_reported = True
+                raise ConnectionResetError(errno.ECONNRESET, "Connection reset by peer")
             if c.eof:
                 c.reads.append(0)
                 return b""
@@ -200,6 +203,8 @@ class FakeSocket:
 
 
 Conn.reset_on_write = False
+Conn.reset = False
+Conn.reset_reported = False
 Conn.tx_full_until = -1.0
 DRAIN = 0.5
 
@@ -351,8 +356,14 @@ class PeerEnd:
         self.conn.inbox += data
         return True
 
-    def close(self):
-        self.rt.point("peer.close", "")
+    def close(self, reset=False):
+        """Orderly close (FIN: the node's recv() returns b"") or, with reset=True, an abortive one (RST: the
+        node's recv() raises ConnectionResetError once, its send() raises BrokenPipeError)."""
+        self.rt.point("peer.close", "rst" if reset else "")
+        if reset:
+            self.conn.reset = True
+            self.conn.reset_on_write = True
+            del self.conn.inbox[:]
         self.conn.eof = True
 
     def received(self):
